@@ -815,6 +815,8 @@ func runC08(p *Prog, r *Report) {
 		why:     "only the bidi ordering routines may assign visual positions", floorSeen: 2})
 	ruleExchange(p, r, p.Func("shaping", "", "swapVisualOrder"), p.Field("shaping", "Output", "VisualIndex"))
 	ruleOrder(p, r)
+	r.Explain = append(r.Explain, "R-TRIM: the run whose end glyph is trimmed as trailing whitespace is selected by comparing VisualIndex values.")
+	ruleTrim(p, r)
 	r.Assumptions = append(r.Assumptions, "Output carries only the parity of the embedding level (Direction); x/text's bidi.Run exposes no level")
 	r.NotDecided = append(r.NotDecided, "that the order equals rule L2 of UAX #9 for the embedding levels (levels above 1 are not represented; the level-2 mis-ordering mentioned by the property is invisible to these rules)", "that the trimmed glyph is the visually last one")
 }
@@ -872,7 +874,7 @@ func ruleOrder(p *Prog, r *Report) {
 	cbo := p.Func("shaping", "", "computeBidiOrdering")
 	fVis := p.Field("shaping", "Output", "VisualIndex")
 	isCBO := func(in ssa.Instruction) bool { return staticCallTo(in, cbo) }
-	n := 0
+	n, nApp := 0, 0
 	for _, b := range ppl.Blocks {
 		for _, in := range b.Instrs {
 			switch x := in.(type) {
@@ -880,6 +882,7 @@ func ruleOrder(p *Prog, r *Report) {
 				if bi, ok := x.Common().Value.(*ssa.Builtin); ok && bi.Name() == "append" {
 					if sl, ok := x.Type().Underlying().(*types.Slice); ok && types.Identical(sl.Elem(), p.Named("shaping", "Output")) {
 						n++
+						nApp++
 						key := fmt.Sprintf("%s/append#%d", p.FnName(ppl), n)
 						r.Instance(rule, key)
 						ok, path := mustFollow(p, ppl, after(in), isCBO)
@@ -905,7 +908,50 @@ func ruleOrder(p *Prog, r *Report) {
 			}
 		}
 	}
-	r.Floor(rule, n, 2)
+	r.Floor(rule, nApp, 1)
+}
+
+// ruleTrim: the run whose last glyph is trimmed is selected by consulting VisualIndex: the function that zeroes a glyph
+// advance in the post-processing region (or the helper that computes the index of that run) compares a VisualIndex value.
+func ruleTrim(p *Prog, r *Report) {
+	const rule = "R-TRIM"
+	ppl := p.Func("shaping", "LineWrapper", "postProcessLine")
+	fVis := p.Field("shaping", "Output", "VisualIndex")
+	G := p.Named("shaping", "Glyph")
+	key := p.FnName(ppl) + "/trimmed-run"
+	r.Instance(rule, key)
+	readsVis := func(f *ssa.Function) bool {
+		for fn := range reachableFns(p, []*ssa.Function{f}) {
+			if fn == p.Func("shaping", "", "computeBidiOrdering") || fn == p.Func("shaping", "", "swapVisualOrder") {
+				continue
+			}
+			for _, b := range fn.Blocks {
+				for _, in := range b.Instrs {
+					if bo, ok := in.(*ssa.BinOp); ok && (bo.Op == token.EQL || bo.Op == token.NEQ) {
+						if derivesFrom(bo.X, func(v ssa.Value) bool { return fieldOf(v) == fVis || isLoadOfField(v, fVis) }, 0) ||
+							derivesFrom(bo.Y, func(v ssa.Value) bool { return fieldOf(v) == fVis || isLoadOfField(v, fVis) }, 0) {
+							return true
+						}
+					}
+				}
+			}
+		}
+		return false
+	}
+	// is there a trimming store at all (zero stored into an advance of a shared glyph)?
+	trims := false
+	for fn := range reachableFns(p, []*ssa.Function{ppl}) {
+		for _, st := range storesToType(fn, G, nil) {
+			if c, ok := st.Val.(*ssa.Const); ok && isZeroConst(c) {
+				trims = true
+			}
+		}
+	}
+	if !trims {
+		r.OK(rule, key, p.Pos(ppl.Pos()), "post-processing no longer trims a glyph")
+		return
+	}
+	r.Check(readsVis(ppl), rule, key, p.Pos(ppl.Pos()), "the run whose end glyph is trimmed is selected by comparing VisualIndex values (the visually last run), not by walking logical order or directions")
 }
 
 // ---- C12 ---------------------------------------------------------------------------------------------------------
@@ -914,6 +960,14 @@ func runC12(p *Prog, r *Report) {
 	ruleAdv(p, r)
 	r.Explain = append(r.Explain, "R-SIDE: in HarfbuzzShaper.Shape, when the input is sideways the direction given to HarfBuzz is the axis-switched one (SwitchAxis precedes the store of Props.Direction on the sideways edge), and with isSideways set the call of Output.sideways precedes the read of the font extents for out.Direction.")
 	ruleSide(p, r)
+	r.Explain = append(r.Explain, "R-STATE (shared with C13): every field of the reusable shaper, its buffer and its cached harfbuzz.Font that Shape may read before writing is classified — a metric memoised on the cached font at one size would put advances and line bounds of a later call at different scales.")
+	fx := NewFX(p)
+	fx.Run()
+	for _, c := range stateConfigs() {
+		if c.name == "shaping.HarfbuzzShaper" {
+			ruleState(p, r, fx, c)
+		}
+	}
 	r.Assumptions = append(r.Assumptions, "fixed-point arithmetic of advances, bounds and spacing amounts is NOT decided")
 	r.NotDecided = append(r.NotDecided, "bounds enclose ink boxes", "rotation equality for sideways runs", "exact spacing amounts at exactly the eligible positions")
 }
